@@ -1,8 +1,94 @@
-/- Driver for C14 (stub). -/
-import ControlModel.Basic
+/- Driver for C14: line = "(style env tree tmpl)<TAB>implObs"; see harness/props/c14. -/
+import ControlModel.Model.Vars
+import ControlModel.Spec.C14
 
 namespace Driver.C14
+open Vars
 
-def processLine (_line : String) : String := "UNIMPLEMENTED\t0\t-"
+def parseKV (s : SExp) : Option KV := do
+  (← s.list?).mapM? fun
+    | .list [.atom k, .atom v] => some (k, v)
+    | _ => none
+
+def parseLevel : List SExp → Option Level
+  | [d, v, u] => do pure { defaults := (← parseKV d), vars := (← parseKV v), userVars := (← parseKV u) }
+  | _ => none
+
+/-- Pre-order list of roles with their paths (own level first, environment last). -/
+partial def walk (tmpl : Option (KV × KV)) (above : Path) : SExp → Option (List RoleIn)
+  | .list (.atom kind :: d :: v :: u :: l :: kids) => do
+      let own ← parseLevel [d, v, u]
+      let locals ← parseKV l
+      let path := own :: above
+      let me : RoleIn := { path := path, locals := locals, tmpl := if kind == "T" then tmpl else none }
+      let below ← kids.mapM? (walk tmpl path)
+      pure (me :: below.flatten)
+  | _ => none
+
+def keysOfKV (m : KV) : List String := m.map (·.1)
+
+def sortDedup (ks : List String) : List String :=
+  (ks.mergeSort (fun a b => !(b < a))).eraseDups
+
+def keyUniverse (env : Option Level) (roles : List RoleIn) (tmpl : Option (KV × KV)) : List String :=
+  let lv (x : Level) := keysOfKV x.defaults ++ keysOfKV x.vars ++ keysOfKV x.userVars
+  let envKeys := match env with | some e => lv e | none => []
+  let roleKeys := roles.flatMap fun r => (match r.path with | own :: _ => lv own | [] => []) ++ keysOfKV r.locals
+  let tmplKeys := match tmpl with | some (a, b) => keysOfKV a ++ keysOfKV b | none => []
+  sortDedup (envKeys ++ roleKeys ++ tmplKeys)
+
+def kvSx (m : KV) : SExp := .list (m.map fun (k, v) => .list [.atom k, .atom v])
+
+def obsSx (o : RoleObs) : SExp :=
+  .list [kvSx o.stack, kvSx o.fstack, .list (o.maps.map kvSx), .list (o.gets.map kvSx), .list (o.stages.map kvSx),
+    match o.task with
+    | none => .list []
+    | some (c, p) => .list [kvSx c, kvSx p]]
+
+def parseObs : SExp → Option RoleObs
+  | .list [st, fst, .list maps, .list gets, .list stages, task] => do
+      let t ← match task with
+        | .list [] => some none
+        | .list [c, p] => do pure (some ((← parseKV c), (← parseKV p)))
+        | _ => none
+      pure { stack := (← parseKV st), fstack := (← parseKV fst), maps := (← maps.mapM? parseKV), gets := (← gets.mapM? parseKV),
+             stages := (← stages.mapM? parseKV), task := t }
+  | _ => none
+
+def processLine (line : String) : String :=
+  match SExp.fields line with
+  | [inp, impl] =>
+    match SExp.parse inp with
+    | some (.list [_style, .list envL, tree, .list tmplL]) =>
+      let env? : Option (Option Level) :=
+        match envL with
+        | [] => some none
+        | l => (parseLevel l).map some
+      let tmpl? : Option (Option (KV × KV)) :=
+        match tmplL with
+        | [] => some none
+        | [a, b] => do pure (some ((← parseKV a), (← parseKV b)))
+        | _ => none
+      match env?, tmpl? with
+      | some env, some tmpl =>
+        let above : Path := match env with | some e => [e] | none => []
+        match walk tmpl above tree with
+        | some roles =>
+          let keys := keyUniverse env roles tmpl
+          if !keysClear keys then "BADINPUT\t0\t-" else
+          let special : KV := specialKeys.map fun k => (k, "?")
+          let model := SExp.list (roles.map fun r => obsSx (modelObs keys special r))
+          let spec :=
+            match (SExp.parse impl).bind SExp.list? with
+            | some os =>
+              match os.mapM? parseObs with
+              | some obs => caseOk keys roles obs
+              | none => false
+            | none => false
+          s!"{model}\t{if spec then 1 else 0}\t-"
+        | none => "BADINPUT\t0\t-"
+      | _, _ => "BADINPUT\t0\t-"
+    | _ => "BADINPUT\t0\t-"
+  | _ => "BADLINE\t0\t-"
 
 end Driver.C14
